@@ -372,6 +372,35 @@ theorem C16_query_eq_eval_compressed (m : QMsg) (p : Path) (nested : List (List 
     simp only
     rw [mapIdx_congr _ _ sel (fun i _ => C16_compressed_subset_eq m p.comps t0 o0 hits ht hl hh i)]
 
+/-- compressed data, the first selected subset exists (always the case without a selector and for a slice
+    selector with a non-empty selection; `@[k]` with `k` out of range is the exception): exact equality, failures
+    included — no assumption that the filtering succeeds -/
+theorem C16_query_eq_eval_compressed_selected (m : QMsg) (p : Path) (nested : List (List NJ))
+    (t0 : List Node) (o0 : SubsetOut) (i : Nat) (rest : List Nat)
+    (hc : m.compressed = true)
+    (ht : ∀ i, i < m.outs.length → m.trees[i]? = some t0) (ho : m.outs[0]? = some o0)
+    (hl : ∀ o ∈ m.outs, o.descs = o0.descs)
+    (hn : Spec.nestedOf m = .ok nested) (hshape : Spec.shapeOK m = true)
+    (hp : Spec.childAttrOnly p.comps = true) (hs : ∀ c ∈ p.comps, Spec.sliceOK c.slice = true)
+    (hsel : subsetIndices p.subset m.outs.length = .ok (i :: rest)) (hi : i < m.outs.length) :
+    query m p = (match Spec.evalPath nested (i :: rest) p.comps with
+      | .error e => .error e
+      | .ok rs => .ok ⟨rs⟩) := by
+  have h0 : 0 < m.outs.length := by omega
+  cases hh : processOne o0.descs t0 p.comps with
+  | ok hits =>
+    rw [C16_query_eq_eval_compressed m p nested t0 o0 hits hc ht ho hl hn hshape hp hs hh, hsel]
+  | error e =>
+    have hq : query m p = .error e := by
+      unfold query
+      simp only [hsel, hc, if_true, ht 0 h0, ho, hh]
+    have hsub : specSubset nested p.comps i = .error e := by
+      rw [← uncompressedSubset_eval { m with compressed := false } nested p.comps hn hshape (pathOK_of _ hp hs) i]
+      unfold uncompressedSubset
+      simp only [List.getElem?_eq_getElem hi, ht i hi, hl _ (List.getElem_mem hi), hh]
+    rw [hq, evalPath_eq]
+    simp only [mapIdx, hsub]
+
 /-- compressed data in general.  WEAKER than equality in two ways, both forced by the code as it is:
     (1) `hne`: the selector designates at least one subset — with an empty selection `query_compressed_data` still
     filters the shared tree and raises when the path fails on it, the evaluation over zero subsets is empty (open
@@ -501,23 +530,6 @@ theorem C16_bare_id_returns_flat_filter_wired (t : List Desc) (o : SubsetOut) (w
   cases hw'
   exact bare_flat_total o tree id (by rw [hi, hn]) hord (C16_wire_shape t o tree hwire)
 
-theorem C16_mapIdx_mem {β : Type} (f : Nat → CM β) : ∀ (l : List Nat) (rs : List β), mapIdx f l = .ok rs →
-    ∀ q ∈ rs, ∃ i ∈ l, f i = .ok q
-  | [], rs, h, q, hq => by simp only [mapIdx] at h; cases h; simp at hq
-  | i :: is, rs, h, q, hq => by
-    simp only [mapIdx] at h
-    split at h
-    · cases h
-    · next b hb =>
-      split at h
-      · cases h
-      · next bs hbs =>
-        cases h
-        rcases List.mem_cons.mp hq with rfl | hq'
-        · exact ⟨i, List.mem_cons_self, hb⟩
-        · obtain ⟨j, hj, hfj⟩ := C16_mapIdx_mem f is bs hbs q hq'
-          exact ⟨j, List.mem_cons_of_mem _ hj, hfj⟩
-
 /-- WHOLE MESSAGE, uncompressed data: every subset of the result of a bare-id query holds, flattened, the values
     carrying the id in the flat data of that subset, in order (with or without an `@` selector) -/
 theorem C16_bare_id_query (m : QMsg) (sel : Option Slice) (id : List Char) (r : QResult)
@@ -536,7 +548,7 @@ theorem C16_bare_id_query (m : QMsg) (sel : Option Slice) (id : List Char) (r : 
     · next rs hrs =>
       cases h
       intro q hq
-      obtain ⟨i, _, hi⟩ := C16_mapIdx_mem _ idxs rs hrs q hq
+      obtain ⟨i, _, hi⟩ := mapIdx_mem _ idxs rs hrs q hq
       unfold uncompressedSubset at hi
       split at hi
       · cases hi
@@ -575,7 +587,7 @@ theorem C16_bare_id_query_compressed (m : QMsg) (sel : Option Slice) (id : List 
       · next rs hrs =>
         cases h
         intro q hq
-        obtain ⟨i, _, hi⟩ := C16_mapIdx_mem _ idxs rs hrs q hq
+        obtain ⟨i, _, hi⟩ := mapIdx_mem _ idxs rs hrs q hq
         unfold compressedSubset at hi
         split at hi
         · cases hi
@@ -719,6 +731,17 @@ example : Spec.flatFilter O1 "031001".toList = [.int 2] := by decide +kernel
 /-- the hypotheses of `C16_bare_id_is_flat_filter_wired` (the pass consumes all 7 values) -/
 example : ((wireRaw T O1).toOption.map fun w => decide (w.st.next = O1.vals.length) && w.tree.toOption.isSome) = some true := by
   decide +kernel
+/-- `C16_bare_id_query`: in every subset of the example message the indices are consecutive and `012001` is ordinary -/
+example : (match msg with
+    | .ok m => (m.outs.zip m.trees).all fun p =>
+        decide (idxList p.2 = List.range p.1.vals.length) && Spec.ordinaryList p.1.descs "012001".toList p.2
+    | .error _ => false) = true := by decide +kernel
+/-- `C16_query_first_step` -/
+example : (match wire T O1 with
+    | .ok tree => (match processOne O1.descs tree [c '/' "001001" all] with
+      | .ok hits => decide (hits.length = 1)
+      | .error _ => false)
+    | .error _ => false) = true := by decide +kernel
 /-- whole message: the bare id over both subsets (2 values, none), and over the compressed message -/
 example : (match run none [bare "012001".toList] with
     | .ok r => r.allValuesFlat == [[.int 280, .int 281], []]
@@ -742,6 +765,8 @@ example : (match cmsg with
         [(0, [.list [.list [.val (.int 5)], .list [.val (.int 6)]]]), (1, [.list [.list [.val (.int 7)], .list [.val (.int 8)]]])]
     | .error _ => false) = true := by decide +kernel
 example : (cmsg).toOption.isSome = true := by decide +kernel     -- hypothesis of `C16_compressed_trees_shared`
+/-- `C16_query_eq_eval_compressed_selected`: without a selector the first selected subset is subset 0 -/
+example : subsetIndices none 2 = .ok (0 :: [1]) := by decide
 /-- the hypothesis `sel ≠ []` of `C16_query_eq_eval_compressed_partial`; and the reason for it (F16c): an empty
     selection with a failing path raises on compressed data, the evaluation over no subset is empty -/
 example : subsetIndices (some (.range (some 1) none none)) 2 = .ok [1] := by decide
@@ -749,7 +774,11 @@ example : (match cmsg with
     | .ok m => isErr .query (query m { subset := some (.range (some 7) none none), comps := [c '/' "001001" all, c '/' "012001" all] })
     | .error _ => false) = true := by decide +kernel
 example : Spec.evalPath [] [] [c '/' "001001" all, c '/' "012001" all] = .ok [] := rfl
-/-- `C16_bare_id_query_compressed` on the compressed message -/
+/-- `C16_bare_id_query_compressed` on the compressed message: hypotheses, result -/
+example : (match cmsg with
+    | .ok m => (m.outs.zip m.trees).all fun p =>
+        decide (idxList p.2 = List.range p.1.vals.length) && Spec.ordinaryList p.1.descs "012001".toList p.2
+    | .error _ => false) = true := by decide +kernel
 example : (match cmsg with
     | .ok m => (match query m { subset := none, comps := [bare "012001".toList] } with
       | .ok r => r.allValuesFlat == [[.int 280, .int 281], [.int 290, .int 291]]
